@@ -51,7 +51,7 @@ PROPERTIES = {
                 "unit scale, permuted numbering), 1-4 face types with independent zero/non-zero tension and bending modulus, random "
                 "per-face labels, bulk / area-elasticity / angle-regularisation moduli over decades, target volume != volume; 1/3 of the cells first undergo 3-9 real edge collapses / splits (public local_mesh_refiner) that leave unused node and face slots, the state of most cells in a running simulation (covariance clause skipped for those). Each "
                 "force term is isolated through the cell_tester friend and judged against closed-form gradients (volume gradient "
-                "cross-checked by finite differences). Non-trivial = >= 2 face types present, pressure != 0, some bending modulus != 0 "
+                "cross-checked by finite differences); the public apply_internal_forces is called twice, the second time after a non-rigid deformation with nothing refreshed in between (the solver's situation at every step), and must equal the four terms evaluated on freshly recomputed areas, volume and pressure. Non-trivial = >= 2 face types present, pressure != 0, some bending modulus != 0 "
                 "and the cell farther than one size from the origin; distinct = hash of the serialised case.",
         "min_nontrivial": 200,
         "assumptions": ["tolerances: 256 eps (1 + D/e_min) Q times the sum of absolute per-face contributions (Q = worst L^2/2A); cases "
@@ -114,7 +114,7 @@ PROPERTIES = {
                  J("C11_refine", variant="san-dm1", quick={"cases": 100, "shards": 4, "max_size": 60}, thorough={"cases": 3000, "shards": 8, "max_size": 100})],
     },
     "C16": {
-        "rule": "rapidcheck: populations of 1-8 cells of the five classes, 4-700 triangles, coordinate scales 1e-9..1e6 with offsets up to "
+        "rule": "rapidcheck: populations of 1-8 cells of the five classes, 4-700 triangles (1/120: a tissue of more than 65536 faces in one file, 13-14 cells of 5120 faces or one of 81920), coordinate scales 1e-9..1e6 with offsets up to "
                 "1e4 sizes, exact and negative zeros and the tiny values of either sign that rounding leaves on a coordinate plane (1e-17 .. 1e-200, subnormal 1e-310: three-digit exponents in the %.4e rendering), type ids 0..12; cells optionally pre-processed by 1-8 real split/collapse operations "
                 "so that they hold unused slots; three writer entry points (write_cell_data_file(cells), write(cell+face files), "
                 "vector<mesh> overload); the cell type objects are pooled for the life of the process and re-parameterised per case, and before the judged write an earlier tissue is written with the same type objects carrying other ids (the bit of process history a parameter screening creates is part of the case). Non-trivial = >= 2 cell classes AND at least one cell the writer had to compact; distinct = hash of the case.",
@@ -186,7 +186,7 @@ PROPERTIES = {
     "C04": {
         "rule": "rapidcheck, two subs. 'direct': one generated cell of each class (placement up to 1000 sizes, um/unit scale), bulk modulus, "
                 "pressure cap (finite/INF), growth rate (negative/zero/positive, with or without sigma), division volume (finite/INF, with or "
-                "without sigma), minimum volume and target volume classes; 60 seeded draws of the random properties, then one public "
+                "without sigma, sigma up to the mean so that negative division volumes are drawn), minimum volume and target volume classes; 60 seeded draws of the random properties, then one public "
                 "apply_internal_forces(dt). 'history': a real solver over 2-5 non-interacting cells with generated growth rates, the harness "
                 "scaling cells below / above the minimum volume between iterations. Non-trivial = (direct) a clamp at V_min, a capped pressure "
                 "or a cell ready to divide; (history) a removal plus a clamp or a finite pressure cap; distinct = hash of the case.",
